@@ -4,7 +4,8 @@ from propslib import comp_scope
 PROP = dict(
     extract=["capi", "bopomofo"],
     lean_targets=["Chewing.Props.C15"],
-    runs=[dict(bin="capi_mem", timeout=900, timeout_thorough=7200)],
+    runs=[dict(bin="capi_mem", timeout=900, timeout_thorough=7200),
+          dict(bin="capi_caller", timeout=600, timeout_thorough=1800)],
     scope=comp_scope("cstr", "own"),
     level="partial",
     exhaustive=False,
@@ -21,6 +22,15 @@ PROP = dict(
          "strict snapshot oracles; every context buffer dumped to its capacity after every step. valgrind memcheck: the 6 "
          "former F22 witnesses + 4 twins, 60 / 300 random histories, thorough: 150 histories with mutations inside the "
          "user-phrase enumeration - all must be clean. "
+         "Caller-buffer sweep (capi_caller, child process): every `*mut c_char` out-parameter the translator enumerates "
+         "(chewing_userphrase_get phrase_buf / bopomofo_buf, chewing_phone_to_bopomofo buf) called with EVERY capacity "
+         "0..needed+3 on guard-zone buffers, each call twice with different canary bytes so the exact set of bytes written "
+         "is observed: 176 (quick) / ~700 (thorough) user phrases of 1-11 characters of 1-4 bytes (every width at every "
+         "offset) x 3 capacity families (both buffers, phrase only, bopomofo only), 1/23 (quick) / all (thorough) of the "
+         "7392 accepted phone values and every 97th rejected one; oracle: no byte outside the capacity, nothing for "
+         "capacity 0, NUL inside, prefix of the full text, valid UTF-8, the full text when it fits, all-or-nothing for "
+         "phone_to_bopomofo, has_next lengths = text + 1; every call is also a `cstr caller` record the byte-level model "
+         "recomputes (bytes written, byte for byte). "
          "distinct = distinct record text",
     trusted_base=["kernel evaluation (`decide`) of facts about generated finite tables (6 buffers, 17 names, 42 symbols, "
                   "126-row function inventory); no native_decide",
@@ -44,7 +54,14 @@ MANIFEST = dict(
          "encode/decode over byte lists and the round-trip lemma: for ALL texts and ALL capacities >= 1 the buffer is "
          "NUL-terminated, holds the longest whole-character prefix that fits (valid UTF-8, decodes to that prefix) and "
          "equals the heap variant's text whenever the text is shorter than the buffer; 'static = heap' is refuted for "
-         "every fixed capacity (F35) and proved under utf8Len < cap; keyboard names < 32 and syllable text < 16 by kernel "
+         "every fixed capacity (F35) and proved under utf8Len < cap; the same for every write into a buffer the CALLER supplies (chewing_userphrase_get both "
+         "buffers via copy_cstr_to_caller, chewing_phone_to_bopomofo; the translator enumerates every `*mut c_char` "
+         "parameter and every raw mutable slice site: caller_buf_params_reviewed): for ALL texts and ALL capacities incl. "
+         "0 and capacities smaller than chewing_userphrase_has_next reported, the bytes written stay inside the capacity, "
+         "the buffer reads as NUL-terminated valid UTF-8 cut at a character boundary whatever it held before, the whole "
+         "text when it fits (caller_copy_in_bounds, caller_copy_len_le for arbitrary byte strings, caller_text_valid, "
+         "fit_copy_in_bounds / fit_copy_text; old_caller_copy_refuted: the byte cut before fix F35b); "
+         "keyboard names < 32 and syllable text < 16 by kernel "
          "evaluation of regenerated tables; chewing_config_get_str(selection_keys) hands out valid UTF-8 decoding to one "
          "character per key, or ERROR exactly when a key's low byte is 0, for EVERY array of integers the legacy setters may "
          "have stored (selkeys_getter_wellformed; raw_selkeys_refuted for a C string built from the raw bytes). (2) Ghost ownership model of the context (OWNED registry, FOUR collected "
@@ -63,7 +80,8 @@ MANIFEST = dict(
          "chewing_config_get_str of both string options, caller buffers of userphrase_get and phone_to_bopomofo) checked "
          "for NUL termination and valid UTF-8 by the harness, every returned buffer "
          "dumped to capacity and recomputed by the model, protocol results and registry replayed by the model per call, "
-         "valgrind memcheck verdicts compared with the model's ub flag. Fixed: F35a (no terminator / cut character), F23 "
+         "valgrind memcheck verdicts compared with the model's ub flag. Fixed: F35a (no terminator / cut character), F35b (chewing_userphrase_get cut a character when the caller's buffer was "
+         "smaller than reported), F23 "
          "(free with wrong layout), F23b (stale registry entries: free of a non-owned block, found by the harness), F22 (user-phrase "
          "iterator borrowed the dictionary: use after free under memcheck), F42 (keyboard-type counter overflow). Known: F35 "
          "(overlong pre-edit truncated).",
